@@ -434,9 +434,90 @@ def overlong_cases(ctx, res):
             res.oracle_failures.append({"input": inp, "what": "Client.list(raw_command=%r) raised %s for an over-long listing line (not ValueError)" % (kind, o[1]), "signature": "C19:list-%s-raises-%s" % (kind, o[1])})
 
 
+def stat_fallback_cases(ctx, res):
+    """`Client.stat` on a server without MLST goes through a listing of the parent directory: a line of that listing
+    that cannot be parsed is reported (ValueError) wherever it stands - before or AFTER the entry looked for - exactly as
+    `Client.list` reports it; it is not a reason to answer, and not a reason for anything else than ValueError"""
+    import aioftp
+
+    F = nc.Func()
+    good = {"MLSD": [b"Type=file;Size=1; wanted\r\n", b"Type=dir; other\r\n"], "LIST": [b"-rw-r--r-- 1 none none 1 Jan  1  2001 wanted\r\n", b"drwxr-xr-x 1 none none 0 Jan  1  2001 other\r\n"]}
+    bad = {"MLSD": [b"this line has no facts\r\n", b"Type=file;Size=1;\r\n", b"\xff\xfe broken\r\n"], "LIST": [b"?rw-r--r-- what is this\r\n", b"-rw-r--r-- 1 none none x Jan  1  2001 f\r\n", b"\xff\xfe broken\r\n"]}
+    cases = []
+    for kind in ("MLSD", "LIST"):
+        for k, junk in enumerate(bad[kind]):
+            for pos, data in (("before", junk + good[kind][0] + good[kind][1]), ("after", good[kind][0] + junk + good[kind][1]), ("last", good[kind][0] + good[kind][1] + junk)):
+                for fn in ("stat", "exists", "is_file"):
+                    cases.append((kind, k, pos, fn, data))
+
+    async def one(kind, data, fn):
+        client = F.client
+
+        async def fake_command(command=None, *a, **k):
+            if command and command.startswith("MLST"):
+                raise aioftp.StatusCodeError("2xx", aioftp.Code("502"), ["not implemented"])
+            raise AssertionError("unexpected command %r" % command)
+
+        def fake_get_stream(*command_args, conn_type="I", offset=0):
+            async def mk():
+                if kind == "LIST" and command_args and str(command_args[0]).startswith("MLSD"):
+                    raise aioftp.StatusCodeError("1xx", aioftp.Code("502"), ["not implemented"])
+                reader = asyncio.StreamReader()
+                reader.feed_data(data)
+                reader.feed_eof()
+                stream = aioftp.common.ThrottleStreamIO(reader, nc._NullWriter(), throttles={}, timeout=None)
+
+                async def finish(*a, **k):
+                    stream.close()
+
+                stream.finish = finish
+                return stream
+
+            return mk()
+
+        client.command, client.get_stream = fake_command, fake_get_stream
+        try:
+            return ("OK", repr(await getattr(client, fn)("base/dir/wanted"))[:60])
+        except BaseException as e:  # noqa
+            return ("EXC", nc.exc_name(e), isinstance(e, ValueError))
+        finally:
+            del client.command, client.get_stream
+
+    async def main():
+        # the same listings through Client.list say which of the junk lines the parsers reject at all
+        out = []
+        for kind, k, pos, fn, data in cases:
+            try:
+                await nc.client_list_real_stream(F, data, "base/dir", raw_command=kind)
+                rejected = False
+            except ValueError:
+                rejected = True
+            except BaseException:  # noqa
+                rejected = None
+            out.append((rejected, await one(kind, data, fn)))
+        return out
+
+    try:
+        outs = asyncio.run(main())
+    finally:
+        F.close()
+    for (kind, k, pos, fn, data), (rejected, o) in zip(cases, outs):
+        res.cases += 1
+        res.count("family=stat-fallback")
+        inp = {"family": "stat-fallback", "kind": kind, "junk": k, "position": pos, "call": fn}
+        res.distinct.add(("stat-fallback", kind, k, pos, fn))
+        if not rejected:
+            continue  # Client.list accepts (or drops) that line: nothing to report here (other families judge list itself)
+        if o[0] == "OK":
+            res.oracle_failures.append({"input": inp, "what": "Client.%s on a server without MLST answered %s although the parent's %s listing holds a line Client.list rejects with ValueError (%s the entry looked for)" % (fn, o[1], kind, pos), "signature": "C19:stat-fallback-hides-unparsable-line"})
+        elif not o[2]:
+            res.oracle_failures.append({"input": inp, "what": "Client.%s on a server without MLST raised %s for an unparsable line of the parent's %s listing (not ValueError)" % (fn, o[1], kind), "signature": "C19:stat-fallback-raises-%s" % o[1]})
+
+
 def _run(ctx, with_model, n_list, n_text):
     res = Result()
     overlong_cases(ctx, res)
+    stat_fallback_cases(ctx, res)
     listing = gen_listing_inputs(ctx, n_list)
     texts = gen_text_inputs(ctx, n_text)
     try:
